@@ -564,7 +564,7 @@ theorem C17_merge_max_holds_inputs (qv : List (QRec × ℚ))
       · exact (hq _ (by simp)).2
       · have := List.all_eq_true.1 hsame p.1 (List.mem_map.2 ⟨p, hp', rfl⟩)
         simp only [sameType, Bool.and_eq_true, decide_eq_true_eq] at this
-        obtain ⟨⟨⟨_, hb⟩, hi⟩, hs⟩ := this
+        obtain ⟨⟨⟨⟨_, hb⟩, hi⟩, hs⟩, _⟩ := this
         have hv := (hq p (by simp [hp'])).2
         rw [← hb, ← hi, ← hs] at hv
         exact hv
@@ -724,39 +724,43 @@ theorem C17_history_key_without_cap_counterexample :
     have : k = -512 := by exact_mod_cast this
     omega
 
-/-- COUNTEREXAMPLE (new finding C17-merge-same-ignores-cap, present on the unchanged tree):
-    `merge_factory.Maximum` (also Minimum / Average / Concatenate) takes the FIRST input's type when all
-    inputs agree in name, bits, int_bits and sign — `max_val_po2` is not compared.
-    `Maximum[quantized_po2(4, max_value=1), quantized_po2(4)]` is reported as `quantized_po2(4, max_value=1)`
-    and cannot hold the second input's value 8. -/
-theorem C17_merge_max_po2_cap_counterexample :
+/-- regression witness of the repaired defect C17-merge-same-ignores-cap: `merge_factory.Maximum` (also
+    Minimum / Average / Concatenate) used to take the FIRST input's type when all inputs agreed in name, bits,
+    int_bits and sign — `max_val_po2` was not compared — so `Maximum[quantized_po2(4, max_value=1),
+    quantized_po2(4)]` was reported as `quantized_po2(4, max_value=1)`, which cannot hold the second input's 4.
+    The comparison now includes `max_val_po2`: the pair goes through the fixed-point envelope `(8, 3, signed)`,
+    which holds 4 (the top value 8 remains excluded by the po2 carrier: finding C17-po2-top). -/
+theorem C17_merge_max_po2_cap_fixed_witness :
     let a : QRec := { tPowerOfTwo with bits := 4, intBits := 4, signed := true, maxValPo2 := some 1 }
     let b : QRec := { tPowerOfTwo with bits := 4, intBits := 4, signed := true }
-    mergeMax [a, b] = some a ∧ ValPo2 b 8 ∧ ¬ ValPo2 a 8 := by
+    mergeMax [a, b] = some { tQuantizedBits with bits := 8, intBits := 3, signed := true } ∧
+    ValPo2 b 4 ∧ ¬ ValPo2 a 4 ∧ ValFixed 8 3 true 4 := by
   have h1 : ceilLog2Rat 1 = 0 := by simpa [pow2] using ceilLog2Rat_pow2 0
-  refine ⟨by decide, ⟨3, by decide, by decide, Or.inl (by simp [pow2])⟩, ?_⟩
-  rintro ⟨e, _, he, hv⟩
-  have he0 : e ≤ 0 := by
-    simpa [po2MaxExpRaw, po2Half, h1, tPowerOfTwo, imin] using he
-  have hp : pow2 e ≤ 1 := by
-    have := pow2_le_pow2 he0
-    simpa [pow2] using this
-  have hpos := pow2_pos e
-  rcases hv with hv | ⟨_, hv⟩ <;> linarith
+  refine ⟨by decide, ⟨2, by decide, by decide, Or.inl (by simp [pow2])⟩, ?_, ⟨64, by decide, by decide, ?_⟩⟩
+  · rintro ⟨e, _, he, hv⟩
+    have he0 : e ≤ 0 := by
+      simpa [po2MaxExpRaw, po2Half, h1, tPowerOfTwo, imin] using he
+    have hp : pow2 e ≤ 1 := by
+      have := pow2_le_pow2 he0
+      simpa [pow2] using this
+    have hpos := pow2_pos e
+    rcases hv with hv | ⟨_, hv⟩ <;> linarith
+  · simp [fixedLsb, b2i, pow2]; norm_num
 
-/-- PARTIAL (what the shortcut does guarantee): when the inputs also agree in `max_val_po2` — i.e. the
-    shortcut is taken for po2 inputs of one type — every value of every input is a value of the result -/
-theorem C17_merge_max_po2_same_partial (q0 : QRec) (rest : List QRec)
-    (hsame : ∀ r ∈ rest, sameType q0 r = true ∧ r.maxValPo2 = q0.maxValPo2)
+/-- the shortcut of `Maximum` (one shared type for all inputs) is taken only when the inputs agree in EVERY
+    field that determines the value set of a po2 record — `max_val_po2` included — and then every value of every
+    input is a value of the result (before the repair this needed an extra hypothesis on `max_val_po2`) -/
+theorem C17_merge_max_po2_same (q0 : QRec) (rest : List QRec)
+    (hsame : ∀ r ∈ rest, sameType q0 r = true)
     (r : QRec) (hr : r ∈ q0 :: rest) (v : ℚ) (hv : ValPo2 r v) :
     mergeMax (q0 :: rest) = some q0 ∧ ValPo2 q0 v := by
-  have hall : rest.all (sameType q0) = true := List.all_eq_true.2 fun x hx => (hsame x hx).1
+  have hall : rest.all (sameType q0) = true := List.all_eq_true.2 fun x hx => hsame x hx
   refine ⟨by simp [mergeMax, hall], ?_⟩
   rcases List.mem_cons.1 hr with rfl | hr'
   · exact hv
-  · obtain ⟨hs, hm⟩ := hsame r hr'
+  · have hs := hsame r hr'
     simp only [sameType, Bool.and_eq_true, decide_eq_true_eq] at hs
-    obtain ⟨⟨⟨_, hb⟩, _⟩, hsg⟩ := hs
+    obtain ⟨⟨⟨⟨_, hb⟩, _⟩, hsg⟩, hm⟩ := hs
     obtain ⟨e, h1, h2, h3⟩ := hv
     have hh : po2Half r = po2Half q0 := by simp [po2Half, hb, hsg]
     have hx : po2MaxExpRaw r = po2MaxExpRaw q0 := by simp [po2MaxExpRaw, hh, hm]
@@ -764,5 +768,10 @@ theorem C17_merge_max_po2_same_partial (q0 : QRec) (rest : List QRec)
     rcases h3 with h3 | ⟨h3, h4⟩
     · exact Or.inl h3
     · exact Or.inr ⟨by rw [hsg]; exact h3, h4⟩
+
+/-- the shortcut is never taken for two inputs that differ in `max_val_po2` -/
+theorem C17_merge_max_cap_differs_no_shortcut (q0 q1 : QRec) (h : q0.maxValPo2 ≠ q1.maxValPo2) :
+    sameType q0 q1 = false := by
+  simp [sameType, h]
 
 end QKV.Props.C17
